@@ -1,4 +1,6 @@
 SPECIFICATION Spec
-CONSTANT Tier = "thorough"
+CONSTANTS Tier = "thorough"
+          Styles = {"plain", "dot", "updown"}
+          Allows = {TRUE}
 INVARIANT Emit
 CHECK_DEADLOCK FALSE
